@@ -17,6 +17,7 @@ func checkC08(c *Ctx) {
 	r := c.R
 	r.Rule("R08.1", "shared-write rule (race freedom by ownership): every store on the logging path (field store, element store, map update, store through a pointer, package-variable store) targets memory owned by the call: the pooled PrintCtx of this call and what hangs off it, the pooled per-call attribute slice, locals and fresh allocations. A store whose target is a field of a logger or writer set, a package-level variable (other than the atomic size hint), or of unknown provenance is a violation")
 	r.Rule("R08.2", "in-place mutators get owned slices only: every slice that reaches the sort/de-duplication (and any other in-place slice mutator on the path) originates, over all call chains, from the per-call pooled slice, a fresh allocation, or an explicit copy (slices.Clone); never from a group's member list, a logger's attribute list, or a caller-supplied slice")
+	r.Rule("R08.6", "destination wrappers keep no per-record state: for every type of the package with a Write([]byte) method (the encoder excepted) SetLevel and Write store to no field of the receiver and hand no field address to a sync/atomic writer; the wrapper object is shared by all goroutines writing to that destination")
 	r.Rule("R08.3", "pool discipline: the formatting buffer and the attribute slice go back to their pools only after the record was written, are not used afterwards and do not escape into fields or package variables")
 	r.Rule("R08.4", "whole record per Write: with per-call buffers, one emission per call and one Write of the whole payload per destination (R02.1-R02.3, shared), a payload is the record of exactly one call and each admitted call produces one")
 	r.Assume("destinations (io.Writer implementations) are goroutine-safe; concurrent reconfiguration of a logger is outside the property")
@@ -33,6 +34,7 @@ func checkC08(c *Ctx) {
 		}
 		c08Stores(c, p, m)
 		c08Pools(c, p, m)
+		wrappersStateless(c, p, "R08.6")
 		pooledObjectsFresh(c, p, "R08.3")
 		c02Counts(c, p, m)
 		c02Sink(c, p, m)
